@@ -1007,7 +1007,7 @@ func seqHistory(h histSpec) {
 	for i, o := range ops {
 		// every third operation: read the whole state back before and after; a difference that
 		// appears across a refused/failed operation is reported as such
-		sampled := i%3 == 0 || i == len(ops)-1
+		sampled := i%run.Scale(3, 10) == 0 || i == len(ops)-1
 		if sampled {
 			if f := readBack(); f != nil {
 				report(&failure{"state-" + f.sig, fmt.Sprintf("state read back before step %d: %s", i, f.msg)}, i)
@@ -1197,7 +1197,7 @@ func main() {
 		}
 		return
 	}
-	nseq := run.Scale(1500, 12000)
+	nseq := run.Scale(1500, 8000)
 	nops := run.Scale(25, 60)
 	nconc := run.Scale(400, 6000)
 	for _, kind := range []string{"mem", "oci", "file00", "file01", "file10", "file11"} {
